@@ -127,7 +127,9 @@ class Detector:
         input_to_adc = (shot_noise + read_noise + self.bias)
         input_to_adc[input_to_adc > self.fwc] = self.fwc
         output = input_to_adc * scaling
-        adc_cap = 2 ** self.bits - 1  # largest code of an n-bit ADC
+        # python integer arithmetic: a numpy integer bit depth (e.g. np.uint8(12)
+        # read from a file header) would overflow in 2 ** bits
+        adc_cap = 2 ** int(self.bits) - 1  # largest code of an n-bit ADC
         output[output < 0] = 0
         output[output > adc_cap] = adc_cap
         # output will be of type int64, only good for 63 unsigned bits
